@@ -621,9 +621,6 @@ func wrapRun(w *World) {
 		return
 	}
 	s := pre.script
-	if s.preDone {
-		w.MarkRuntimeChoice() // every select on both sides has the done context ready next to whatever else is ready
-	}
 	w.Mix(s.String())
 	w.MarkNontrivial()
 	same := func(a, b transcript) bool {
